@@ -98,16 +98,25 @@ def r2_constructor(R) -> None:
     # chain shortening
     wh = [m for m in f.cfg.nodes if m.kind == 'while']
     ok = False
+    filt_ok = False
     if wh:
         # break condition: no name is both key and value
         brk = [t for t in f.tests() if wh[0].id in t.loops and 'set(aliases.keys()) & set(aliases.values())' in text(t.ast)]
-        sub = [d for d in f.assigns_to('aliases') if wh[0].id in d.loops and isinstance(d.ast.value, ast.DictComp)]
+        comps = [d for d in f.assigns_to('aliases') if wh[0].id in d.loops and isinstance(d.ast.value, ast.DictComp)]
+        sub = [d for d in comps if not d.ast.value.generators[0].ifs]
+        filt = [d for d in comps if d.ast.value.generators[0].ifs and text(d.ast.value.generators[0].ifs[0]) in ('k != v', 'v != k')]
         if brk and sub:
             dc = sub[0].ast.value
             kv = [x.id for x in ast.walk(dc.generators[0].target) if isinstance(x, ast.Name)]
             ok = text(dc.key) == kv[0] and text(dc.value) == f'aliases.get({kv[1]}, {kv[1]})' and text(dc.generators[0].iter) == 'aliases.items()'
+        # a self-map (X -> X) is in both keys and values for ever: it must be dropped before the termination test, in the loop
+        if brk and filt:
+            filt_ok = all(any(fl.id in f.dom[b.id] for fl in filt) for b in brk)
     R.check(ok, q, 'chain-shortening', 'chains are shortened by substituting values through the map until no value is a key',
             'chain shortening is not `aliases = {k: aliases.get(v, v) ...}` until keys and values are disjoint', where=f.fi.where)
+    R.check(filt_ok, q, 'selfmaps-before-termination-test', 'self-maps are dropped inside the shortening loop, before its termination test (the loop terminates on self-maps)',
+            'the shortening loop tests `keys & values` without first dropping self-maps: an alias that points to itself (ALIASES = {"Y": "Y", ...}) keeps the loop running forever',
+            where=f.fi.where)
     selfmaps = [d for d in f.assigns_to('aliases') if isinstance(d.ast.value, ast.DictComp) and d.ast.value.generators[0].ifs and not d.loops]
     ok = bool(selfmaps) and text(selfmaps[0].ast.value.generators[0].ifs[0]) in ('k != v', 'v != k')
     R.check(ok, q, 'drop-self-maps', 'self-maps are dropped', 'self-maps are not dropped after shortening', where=f.fi.where)
@@ -198,6 +207,28 @@ def r5_export(R) -> None:
     R.check(not st, q, 'no-column-writes', 'no column is assigned', 'a column of the frame is assigned', where=f.fi.where)
     rs = f.raises('ValueError')
     R.check(len(rs) == 1, q, 'ambiguous-export', 'several preferred names for one variable are rejected', 'no ValueError for ambiguous preferences', where=f.fi.where)
+    # itertools.groupby only merges adjacent items: its input must be sorted by the same key
+    for n in f.cfg.nodes:
+        if n.ast is None:
+            continue
+        from fsa.flow import node_expr_roots
+        for root in node_expr_roots(n):
+            for x in ast.walk(root):
+                if is_call(x, 'itertools.groupby', 'groupby'):
+                    src = x.args[0] if x.args else None
+                    key = kwarg(x, 'key') or (x.args[1] if len(x.args) > 1 else None)
+                    srt = None
+                    if is_call(src, 'sorted'):
+                        srt = src
+                    elif isinstance(src, ast.Name):
+                        vals = f.lf.values_reaching(n.id, src.id)
+                        if len(vals) == 1 and vals[0][1] is not None and is_call(vals[0][1], 'sorted'):
+                            srt = vals[0][1]
+                    skey = (kwarg(srt, 'key') if srt is not None else None)
+                    ok = srt is not None and key is not None and skey is not None and text(skey) == text(key)
+                    R.check(ok, q, 'groupby-sorted:' + (text(src)[:40] if src is not None else '?'), 'aliases are grouped by target after sorting by target',
+                            f'`{text(x)[:70]}` groups an input that is not sorted by the same key: aliases of one variable that are not adjacent in ALIASES fall into '
+                            f'separate groups, so a later group overrides the declared preferred name', where=f.where(n))
     g = [(text(a), truth) for (a, truth, _t) in f.guard_atoms(f.returns()[0].id)] if f.returns() else []
     R.check(('use_aliases', False) in g or ('not use_aliases', True) in g, q, 'default-unchanged', 'without use_aliases the frame is returned unchanged',
             'the first return is not the `not use_aliases` shortcut', where=f.fi.where)
